@@ -169,13 +169,15 @@ struct String {
         SizeT offset{0};
 
         if (str != nullptr) {
-            while ((*str != Char_T{0}) && (*str == First()[offset])) {
+            while ((offset < Length()) && (*str != Char_T{0}) && (*str == First()[offset])) {
                 ++str;
                 ++offset;
             }
+
+            return ((*str == Char_T{0}) && (Length() == offset));
         }
 
-        return ((*str == Char_T{0}) && (Length() == offset));
+        return (Length() == offset);
     }
 
     inline bool operator!=(const String &string) const noexcept {
